@@ -19,6 +19,9 @@ type Step struct {
 	Op    string `json:"op"` // add update delete resync
 	Obj   string `json:"obj"`
 	State int    `json:"state"`
+	// Init: an Added delivered from the informer's own initial list (isInInitialList): the object may have
+	// changed since the binding listed it
+	Init bool `json:"init,omitempty"`
 }
 
 type Case struct {
@@ -108,6 +111,15 @@ func gen(t *rapid.T) Case {
 	for _, o := range objs {
 		if rapid.IntRange(0, 2).Draw(t, "init"+o) == 0 {
 			c.Initial[o] = rapid.IntRange(0, ns-1).Draw(t, "istate")
+		}
+	}
+	// the informer's own initial list: every object the binding listed comes again as Added, in its state of then
+	for _, o := range objs {
+		if st, ok := c.Initial[o]; ok && rapid.IntRange(0, 3).Draw(t, "relist"+o) > 0 {
+			if rapid.Bool().Draw(t, "relistChanged") {
+				st = rapid.IntRange(0, ns-1).Draw(t, "relistState")
+			}
+			c.History = append(c.History, Step{Op: "add", Obj: o, State: st, Init: true})
 		}
 	}
 	n := rapid.IntRange(1, 16).Draw(t, "n")
@@ -366,7 +378,7 @@ func runCase(c Case) (ev.Info, error) {
 		o := kit.Obj("d", s.Obj, c.States[st])
 		switch op {
 		case "add":
-			inf.OnAdd(o, false)
+			inf.OnAdd(o, s.Init)
 			live[s.Obj] = st
 		case "update", "resync":
 			old := kit.Obj("d", s.Obj, c.States[live[s.Obj]])
@@ -413,7 +425,7 @@ func runCase(c Case) (ev.Info, error) {
 	return info, failure
 }
 
-const rule = "one informer of a real monitor on a fake cluster, unlocked, driven through OnAdd/OnUpdate/OnDelete with generated per-object histories over a pool of 2-5 generated object states (repeats, changes outside the projection, delete and re-add, re-delivery of Added for listed objects, resync), executeHookOnEvent all subsets plus default, jqFilter from a pool of object/array/scalar/null-valued single-output expressions or none; oracle: trigger <=> type listed and (Deleted or independently computed projection differs from the last known), and every snapshot shows the latest state. Non-trivial: one object had both a suppressed and a delivered Modified. Distinct = distinct cases."
+const rule = "one informer of a real monitor on a fake cluster, unlocked, driven through OnAdd/OnUpdate/OnDelete with generated per-object histories over a pool of 2-5 generated object states (repeats, changes outside the projection, delete and re-add, re-delivery of Added for listed objects - also flagged as coming from the informer's own initial list, possibly in a newer state -, resync), executeHookOnEvent all subsets plus default, jqFilter from a pool of object/array/scalar/null-valued single-output expressions or none; oracle: trigger <=> type listed and (Deleted or independently computed projection differs from the last known), and every snapshot shows the latest state. Non-trivial: one object had both a suppressed and a delivered Modified. Distinct = distinct cases."
 
 func TestInformer(t *testing.T) {
 	ev.Main(t, ev.Spec[Case]{Property: "C08", Part: "informer", Rule: rule, Gen: gen, Run: runCase})
